@@ -14,7 +14,10 @@
 #ifndef LY
 #define LY 16
 #endif
-#define LT (LX + LY)
+#ifndef LZ
+#define LZ 0
+#endif
+#define LT (LX + LY + LZ)
 #define C1(n) ((n) ? (n) : 1)
 
 static int o_eq(const octet* a, const octet* b, size_t n)
@@ -43,7 +46,8 @@ void h_##NAME(void) \
 	START(s2); STEP(b, LX, s2); \
 	RELOCATE(s2, keep) \
 	STEP(b + LX, LY, s2); \
-	V_ASSERT(o_eq(a, b, LT), #NAME ": one fragment == two fragments (state relocated in between)"); \
+	if (LZ) STEP(b + LX + LY, LZ, s2); \
+	V_ASSERT(o_eq(a, b, LT), #NAME ": one fragment == two / three fragments (state relocated in between)"); \
 	V_CANARY(#NAME); \
 }
 #define CFBSTART(st) beltCFBStart(st, key, 32, iv)
@@ -63,7 +67,7 @@ void h_##NAME(void) \
 	START(s2); STEPA(b, LX, s2); \
 	GET(g3, s2);                       /* Get-then-continue must not disturb the running state */ \
 	RELOCATE(s2, keep) \
-	STEPA(b + LX, LY, s2); GET(g2, s2); \
+	STEPA(b + LX, LY, s2); if (LZ) STEPA(b + LX + LY, LZ, s2); GET(g2, s2); \
 	V_ASSERT(o_eq(g1, g2, OUTLEN), #NAME ": one fragment == two fragments with a Get and a relocation in between"); \
 	GET(g3, s2); \
 	V_ASSERT(o_eq(g3, g2, OUTLEN), #NAME ": Get is repeatable"); \
